@@ -5,6 +5,12 @@ import (
 	"fmt"
 	"math/rand"
 	"os"
+	"sync/atomic"
+	"time"
+
+	"github.com/markusressel/fan2go/internal/configuration"
+	"github.com/markusressel/fan2go/internal/control_loop"
+	"github.com/markusressel/fan2go/internal/controller"
 )
 
 // C02 — a never-stop fan is never driven below its minimum, and the minimum never drops.
@@ -69,7 +75,7 @@ func checkC02(ctx *Ctx, sc *Scenario) {
 	cyclesAfterRaise := 0
 	runScenario(ctx, sc, func(w *World, rec *CycleRecord) bool {
 		ctx.Eval(1)
-		class := sc.Fan.Kind
+		class := sc.Fan.Label()
 		if sc.Fan.Kind == "hwmon" {
 			if sc.Fan.CfgMin != nil {
 				class += "-configured"
@@ -128,6 +134,76 @@ func checkC02(ctx *Ctx, sc *Scenario) {
 	}
 }
 
+// c02FirstRun: the very first start of a never-stop hwmon fan - initial analysis, stored data loaded back, regulation -
+// and later starts with the stored data. With the curve at 0 and a fan that spins at every PWM value the request must
+// be the configured minimum from the first regulation cycle on, on every start.
+func c02FirstRun(ctx *Ctx) {
+	r := ctx.Rng
+	cfgMin := 30 + r.Intn(120)
+	spec := RigSpec{FanKind: "hwmon", SensorKind: "file", CurveKind: "linear", HasEnable: r.Intn(2) == 0, HasRpm: true, NeverStop: true, OrigMode: 2, OrigPwm: 100,
+		Stored: false, Levels: pick(r, 4, 6, 9), Window: pick(r, 1, 3, 10), Theta: 1, Algo: "direct", TempMdeg: 20000, CfgMin: iptr(cfgMin)}
+	switch r.Intn(3) {
+	case 0:
+		spec.CfgMax = iptr(cfgMin + 10 + r.Intn(255-cfgMin-9))
+	case 1:
+		spec.CfgStart = iptr(r.Intn(256))
+	}
+	c02FirstRunSpec(ctx, spec)
+}
+
+func c02FirstRunSpec(ctx *Ctx, spec RigSpec) {
+	controller.VerifTimescale = 50
+	cfgMin := *spec.CfgMin
+	ctx.LogCase(map[string]interface{}{"class": "first-run:process-died", "spec": spec})
+	rig := newRig(ctx, spec)
+	defer rig.close()
+	cls := fmt.Sprintf("first-run:min=%v:start=%v:max=%v", spec.CfgMin != nil, spec.CfgStart != nil, spec.CfgMax != nil)
+	for start := 1; start <= 2; start++ {
+		if start == 2 {
+			// a second start on the stored data: new controller object, same fan configuration and persistence
+			rig.Ctrl = controller.NewFanController(rig.Pers, rig.Fan, control_loop.NewDirectControlLoop(nil), configuration.CurrentConfig.ControllerAdjustmentTickRate)
+			atomic.StoreInt64(&rig.Evals, 0)
+		}
+		cancel, done, wg := rig.start()
+		deadline := time.Now().Add(60 * time.Second)
+		for atomic.LoadInt64(&rig.Evals) < 12 && time.Now().Before(deadline) {
+			select {
+			case res := <-done:
+				done <- res
+				deadline = time.Now()
+			default:
+				time.Sleep(2 * time.Millisecond)
+			}
+		}
+		evals := atomic.LoadInt64(&rig.Evals)
+		req, has := rig.Ctrl.(*controller.DefaultFanController).VerifLastSetPwm()
+		minNow := rig.Fan.GetMinPwm()
+		cancel()
+		select {
+		case <-done:
+		case <-time.After(30 * time.Second):
+			ctx.Inconclusive("first-run: controller did not stop: " + jsonStr(spec))
+			ctx.Abort = true
+			return
+		}
+		wg.Wait()
+		ctx.Eval(1)
+		if evals < 12 {
+			ctx.Inconclusive(fmt.Sprintf("first-run: regulation did not begin (start %d): %s", start, jsonStr(spec)))
+			return
+		}
+		if minNow != cfgMin {
+			ctx.Violation("configured-minimum-not-in-force:"+cls+fmt.Sprintf(":start-%d", start), fmt.Sprintf("start %d: the fan's minimum is %d, configured %d; %s", start, minNow, cfgMin, jsonStr(spec)), spec)
+			return
+		}
+		if has && req < cfgMin {
+			ctx.Violation("request-below-minimum:"+cls+fmt.Sprintf(":start-%d", start), fmt.Sprintf("start %d: request %d at curve 0, configured minimum %d; %s", start, req, cfgMin, jsonStr(spec)), spec)
+			return
+		}
+	}
+	ctx.Nontrivial(fmt.Sprintf("%s|%d|%d|%d", cls, cfgMin, spec.Levels, spec.Window))
+}
+
 func init() {
 	register("C02", func(ctx *Ctx) {
 		if ctx.Replay != "" {
@@ -138,6 +214,11 @@ func init() {
 			}
 			if err != nil {
 				ctx.Inconclusive("cannot read replay: " + err.Error())
+				return
+			}
+			var spec RigSpec
+			if json.Unmarshal(b, &spec) == nil && spec.FanKind != "" && spec.CfgMin != nil {
+				c02FirstRunSpec(ctx, spec)
 				return
 			}
 			checkC02(ctx, &sc)
@@ -154,6 +235,10 @@ func init() {
 		nc := ctx.N(40, 600)
 		for i := 0; i < nc; i++ {
 			checkC02(ctx, genC02(ctx.Rng, "cmd"))
+		}
+		nf := ctx.N(32, 400)
+		for i := 0; i < nf && !ctx.Abort; i++ {
+			c02FirstRun(ctx)
 		}
 	})
 }
